@@ -423,6 +423,34 @@ def trace_oracle(lines, impl_lines):
     return None
 
 
+# which method of the buffered file served each read / write of the REAL trace (fifth field of an event, fine io-trace hook):
+# the model logs position and length only; Cache_x.cache_refines_xflat_variants covers every way of making a call whose guard
+# holds (a `*_small` call no longer than a chunk, read_max_8_bytes of at most 8 bytes, a partial read/write inside its chunk)
+METHODS = {}
+METHOD_GUARD_FAILS = []
+
+
+def strip_methods(line):
+    """the real iodrain line without the method fields; counts the methods and checks their guards on the way"""
+    if not line.startswith('io'):
+        return line
+    out = []
+    for e in line.split():
+        t = e.split(':')
+        if len(t) == 5 and t[1] in ('r', 'w'):
+            m = t[4]
+            METHODS[m] = METHODS.get(m, 0) + 1
+            n = int(t[3])
+            if (m.endswith('_small') and n > 4096) or (m == 'read_max_8_bytes' and n > 8) or \
+               (m in ('read_u8', 'write_u8') and n != 1) or (m in ('read_u16_le', 'write_u16_le') and n != 2) or \
+               (m in ('read_u32_le', 'write_u32_le') and n != 4) or (m in ('read_u64_le', 'write_u64_le') and n != 8):
+                METHOD_GUARD_FAILS.append(e)
+            out.append(':'.join(t[:4]))
+        else:
+            out.append(e)
+    return ' '.join(out)
+
+
 def first_event_diff(a, b):
     ea, eb = a.split(), b.split()
     for j in range(max(len(ea), len(eb))):
@@ -481,6 +509,7 @@ def check_history(ctx, scen, idx, lines, info=None):
         b = ml[i] if i < len(ml) else 'MISSING'
         k = l.split()[0]
         if k == 'iodrain':
+            a = strip_methods(a)
             res['events'] += max(0, len(a.split()) - 1)
             if (i - 1) in rejected_at:
                 res['rejected_open_events'] = res.get('rejected_open_events', 0) + max(0, len(a.split()) - 1)
@@ -546,6 +575,10 @@ def _publish_domain(ctx):
     # the hypothesis of Io_cache.checked_step_in_domain, decided by the EXTRACTED Io_flat.evs_ok on the events of every call
     # (per call and file; the event lists are the ones compared with the real trace): calls inside / outside the domain in which
     # the cache theorem (Cache_x.cache_refines_xflat) applies
+    ctx.distribution['real_calls_by_method_of_the_buffered_file'] = dict(sorted(METHODS.items()), guard_failures=len(METHOD_GUARD_FAILS))
+    if METHOD_GUARD_FAILS:
+        ctx.violation('io_method_guard', 'a call into the buffered file is outside the guard of its method (e.g. a *_small call longer than a chunk): %s'
+                      % ' '.join(METHOD_GUARD_FAILS[:5]), None, found=False)
     dom = {k[len('cache_domain:'):]: v for k, v in FEATURES.items() if k.startswith('cache_domain:')}
     ctx.distribution['calls_in_the_domain_of_the_cache_theorem'] = {
         'call_file_pairs_inside': sum(v for k, v in dom.items() if k.endswith(':in')),
